@@ -339,7 +339,7 @@ def handle (j : Json) : Except String Json := do
     let n ← Drv.nat? j "n"
     return Json.mkObj [("m", Json.arr #[toJson (commonPrefixCharSize a b), jStr (getPrefixWithCharSize a n),
       jStr (commonPrefix a b)])]
-  if mode == "twin" || mode == "router" then
+  if mode == "router" then
     -- Unicode-aware constructs (`\\w`, `\\d`, Unicode classes, non-ASCII case folding), tree and router level: decided by the
     -- implementation-side oracles of c12 alone (cache-free twin, scan with the regex crate); no model observation
     return Json.mkObj [("tags", Json.arr #["twin-only"])]
@@ -348,6 +348,14 @@ def handle (j : Json) : Except String Json := do
   let ops ← (← Drv.arr? j "ops").toList.mapM (parseOp unique)
   let hay := (← (← Drv.arr? j "hay").toList.mapM (fun x => (fromJson? x : Except String String))).map String.toList
   let pats := patsOf ops
+  -- C12 twin cases (Unicode-aware constructs): modelled like `beh` when every pattern compiles in the model engine and every
+  -- character of the patterns and haystacks is one the model's class tables are authoritative for; otherwise left to the
+  -- implementation-side oracles
+  if mode == "twin" &&
+      !(pats.all (fun p => E.leafOk ic p && p.all knownChar) && hay.all (fun h => h.all knownChar)) then
+    return Json.mkObj [("tags", Json.arr #["twin-only"])]
+  let twinModelled := mode == "twin"
+  let mode := if mode == "twin" then "beh" else mode
   if mode == "rx" then
     return Json.mkObj [("m", Json.arr (pats.map (obsRx ic hay)).toArray)]
   -- run the history
@@ -403,7 +411,7 @@ def handle (j : Json) : Except String Json := do
   let m := Json.arr (steps.map fun (st, _) => obsBeh unique hay pats st).toArray
   let s := Json.arr (steps.map fun (st, rem) => specBeh ic unique hay pats st.ref rem).toArray
   if idsOk && allGood then
-    return Json.mkObj [("m", m), ("s", s)]
+    return Json.mkObj [("m", m), ("s", s), ("tags", Json.arr (if twinModelled then #["twin-modelled"] else #[]))]
   else if idsOk && allTok && mis then
     return Json.mkObj [("m", m), ("s", s), ("sig", "class-paren"), ("tags", Json.arr #["class-paren"])]
   else
